@@ -15,7 +15,7 @@ class MirSyntax(Exception):
 
 class Function:
     __slots__ = ("name", "kind", "params", "ret", "locals", "blocks", "text",
-                 "src", "order", "generic")
+                 "src", "order", "generic", "debug")
 
     def __init__(self, name, kind):
         self.name = name
@@ -27,6 +27,7 @@ class Function:
         self.text = ""
         self.src = None           # 'src/binops/add_sub.rs' if derivable from name
         self.order = []
+        self.debug = {}           # source variable name -> [locals]
 
     def __repr__(self):
         return "<%s %s>" % (self.kind, self.name)
@@ -220,6 +221,10 @@ def _parse_item(kind, header, body):
         s = ln.strip()
         if not s or s.startswith("//"):
             continue
+        if s.startswith("debug "):
+            md = re.match(r"^debug (\w+) => (_\d+);$", s)
+            if md and md.group(2) not in f.debug.setdefault(md.group(1), []):
+                f.debug[md.group(1)].append(md.group(2))
         if s.startswith("debug ") or s.startswith("scope ") or s == "}":
             if s == "}" and cur is not None:
                 # end of block
